@@ -130,8 +130,20 @@ def forward(f):
         if not isinstance(rv, dict) or "ref" not in rv:
             continue
         p0 = rv["ref"]
-        if p0["l"] == r or any(e == "deref" for e in p0["proj"]) or not p0["proj"]:
+        if p0["l"] == r or any(e == "deref" for e in p0["proj"]):
             continue
+        if not p0["proj"]:
+            # `r = &mut x` of a whole local: forwarded only when something is stored through it (`*r -= n` in a spliced FnMut
+            # closure); plain reborrow chains (`&mut *r` handed to `next`) are left as they are
+            stored = False
+            for b_ in blocks:
+                if b_.get("cleanup"):
+                    continue
+                for s_ in b_["stmts"]:
+                    if s_["k"] == "assign" and s_["place"]["l"] == r and s_["place"]["proj"] and s_["place"]["proj"][0] == "deref":
+                        stored = True
+            if not stored or not ty.startswith("&mut") or p0["l"] <= d.get("arg_count", 0):
+                continue
         if not ty.startswith("&mut") and not any(isinstance(e, dict) and "idx" in e for e in p0["proj"]):
             continue        # shared references to fields are already transparent to the provenance terms
         ok = True
@@ -181,14 +193,271 @@ def forward(f):
     return nd
 
 
+def forward_env(f):
+    """closure environments of spliced closures: `E = closure[c0, c1, ..]`, `R = &mut E` (possibly moved along), body reads
+    `(*R).k` -- replaced by the captured operand c_k itself, when every use of E and of its references has that form"""
+    d = f.d
+    blocks = d["blocks"]
+    defs, uses = {}, {}
+    for bi, b in enumerate(blocks):
+        if b.get("cleanup"):
+            continue
+        for si, s in enumerate(b["stmts"]):
+            if s["k"] == "assign":
+                if not s["place"]["proj"]:
+                    defs.setdefault(s["place"]["l"], []).append(("stmt", bi, si, s))
+
+                def note(pl, s=s):
+                    if pl is s["place"] and not pl["proj"]:
+                        return
+                    uses.setdefault(pl["l"], []).append(pl)
+                    for e in pl["proj"]:
+                        if isinstance(e, dict) and "idx" in e:
+                            uses.setdefault(e["idx"], []).append({"l": e["idx"], "proj": ["<idx>"]})
+                _walk_places(s, note)
+        t = b["term"]
+        if t["k"] == "call" and not t["dest"]["proj"]:
+            defs.setdefault(t["dest"]["l"], []).append(("call", bi, None, t))
+
+        def note_t(pl, t=t):
+            if t["k"] == "call" and pl is t.get("dest") and not pl["proj"]:
+                return
+            uses.setdefault(pl["l"], []).append(pl)
+        _walk_places(t, note_t)
+    envs = {}
+    for l, ds in defs.items():
+        if len(ds) == 1 and ds[0][0] == "stmt":
+            rv = ds[0][3]["rv"]
+            if "agg" in rv and isinstance(rv["agg"], dict) and "closure" in rv["agg"]:
+                ops = rv["ops"]
+                if all(("const" in o) or ((o.get("move") or o.get("copy")) is not None) for o in ops):
+                    envs[l] = ops
+    if not envs:
+        return None
+    nd = None
+    done = []
+    for E, ops in envs.items():
+        # aliases: R = &E / &mut E / &*R' / move R'
+        alias = {}
+        grew = True
+        while grew:
+            grew = False
+            for l, ds in defs.items():
+                if l in alias or l == E or len(ds) != 1 or ds[0][0] != "stmt":
+                    continue
+                rv = ds[0][3]["rv"]
+                if "ref" in rv:
+                    rp = rv["ref"]
+                    if rp["l"] == E and not rp["proj"]:
+                        alias[l] = True
+                        grew = True
+                    elif rp["l"] in alias and rp["proj"] == ["deref"]:
+                        alias[l] = True
+                        grew = True
+                elif "use" in rv:
+                    p2 = rv["use"].get("move") or rv["use"].get("copy")
+                    if p2 is not None and not p2["proj"] and p2["l"] in alias:
+                        alias[l] = True
+                        grew = True
+        ok = True
+        for a in alias:
+            for pl in uses.get(a, []):
+                pj = pl["proj"]
+                if not pj:
+                    continue        # moved / reborrowed into another alias (checked below) or passed on
+                if pj == ["deref"]:
+                    continue        # `&*R`
+                if not (len(pj) >= 2 and pj[0] == "deref" and isinstance(pj[1], dict) and "f" in pj[1] and pj[1]["f"] < len(ops)):
+                    ok = False
+        # every whole use of an alias or of E must be one of the defining statements of an alias (no call takes them)
+        alias_def_rvs = [id(defs[a][0][3]["rv"]) for a in alias]
+        for bi, b in enumerate(blocks):
+            if b.get("cleanup"):
+                continue
+            t = b["term"]
+            if t["k"] == "call":
+                for o in t["args"]:
+                    pl = o.get("move") or o.get("copy")
+                    if pl is not None and not pl["proj"] and (pl["l"] in alias or pl["l"] == E):
+                        ok = False
+        for pl in uses.get(E, []):
+            pj = pl["proj"]
+            if pj and not (isinstance(pj[0], dict) and "f" in pj[0] and pj[0]["f"] < len(ops)):
+                ok = False
+        if not ok or not alias:
+            continue
+        if nd is None:
+            nd = dict(d)
+            nd["blocks"] = copy.deepcopy(blocks)
+
+        def sub(pl, E=E, ops=ops, alias=alias):
+            pj = pl["proj"]
+            k = None
+            rest = None
+            if pl["l"] in alias and len(pj) >= 2 and pj[0] == "deref" and isinstance(pj[1], dict) and "f" in pj[1]:
+                k, rest = pj[1]["f"], pj[2:]
+            elif pl["l"] == E and pj and isinstance(pj[0], dict) and "f" in pj[0]:
+                k, rest = pj[0]["f"], pj[1:]
+            if k is None:
+                return
+            o = ops[k]
+            src = o.get("move") or o.get("copy")
+            if src is None:
+                return          # a constant capture read through the environment stays as it is
+            pl["l"] = src["l"]
+            pl["proj"] = copy.deepcopy(src["proj"]) + rest
+        for b in nd["blocks"]:
+            if b.get("cleanup"):
+                continue
+            for s in b["stmts"]:
+                _walk_places(s, sub)
+            _walk_places(b["term"], sub)
+        done.append(E)
+    if nd is None or not done:
+        return None
+    nd["forwarded_envs"] = done
+    return nd
+
+
+def propagate_ref_copies(f):
+    """`r2 = copy r` (both references, both defined once, r2 only dereferenced): `(*r2)` reads and writes become `(*r)`"""
+    d = f.d
+    blocks = d["blocks"]
+    locals_ = d["locals"]
+    defs, whole, derefd = {}, {}, {}
+    for bi, b in enumerate(blocks):
+        if b.get("cleanup"):
+            continue
+        for si, s in enumerate(b["stmts"]):
+            if s["k"] != "assign":
+                continue
+            if not s["place"]["proj"]:
+                defs.setdefault(s["place"]["l"], []).append((bi, si, s["rv"]))
+
+            def note(pl, s=s):
+                if pl is s["place"] and not pl["proj"]:
+                    return
+                (derefd if pl["proj"] and pl["proj"][0] == "deref" else whole).setdefault(pl["l"], []).append((bi, si))
+            _walk_places(s, note)
+        t = b["term"]
+        if t["k"] == "call" and not t["dest"]["proj"]:
+            defs.setdefault(t["dest"]["l"], []).append((bi, None, None))
+
+        def note_t(pl, t=t):
+            if t["k"] == "call" and pl is t.get("dest") and not pl["proj"]:
+                return
+            (derefd if pl["proj"] and pl["proj"][0] == "deref" else whole).setdefault(pl["l"], []).append((bi, len(b["stmts"])))
+        _walk_places(t, note_t)
+    amap = {}
+    for r2, ds in defs.items():
+        if len(ds) != 1 or ds[0][2] is None or "use" not in ds[0][2] or whole.get(r2) or not derefd.get(r2):
+            continue
+        if r2 >= len(locals_) or not locals_[r2]["ty"].startswith("&"):
+            continue
+        src = ds[0][2]["use"].get("copy") or ds[0][2]["use"].get("move")
+        if src is None or src["proj"] or len(defs.get(src["l"], [])) != 1 or src["l"] <= d.get("arg_count", 0):
+            continue
+        dpos = (ds[0][0], ds[0][1])
+        if all(_dominates_pos(f, dpos, u) for u in derefd[r2]):
+            amap[r2] = src["l"]
+    if not amap:
+        return None
+    nd = dict(d)
+    nd["blocks"] = copy.deepcopy(blocks)
+
+    def sub(pl):
+        if pl["l"] in amap and pl["proj"] and pl["proj"][0] == "deref":
+            pl["l"] = amap[pl["l"]]
+    for b in nd["blocks"]:
+        if b.get("cleanup"):
+            continue
+        for s in b["stmts"]:
+            _walk_places(s, sub)
+        _walk_places(b["term"], sub)
+    nd["propagated_refs"] = sorted(amap)
+    return nd
+
+
+def drop_dead_defs(f):
+    """remove assignments of pure rvalues (copies, references, aggregates) to locals that nothing reads any more (what is left
+    of a closure environment after its captures were forwarded)"""
+    d = f.d
+    nd = None
+    for _ in range(6):
+        blocks = (nd or d)["blocks"]
+        used = set()
+        for b in blocks:
+            if b.get("cleanup"):
+                continue
+            for s in b["stmts"]:
+                if s["k"] != "assign":
+                    continue
+
+                def note(pl, s=s):
+                    if pl is s["place"] and not pl["proj"]:
+                        return
+                    used.add(pl["l"])
+                    for e in pl["proj"]:
+                        if isinstance(e, dict) and "idx" in e:
+                            used.add(e["idx"])
+                _walk_places(s, note)
+            t = b["term"]
+
+            def note_t(pl, t=t):
+                if t["k"] == "call" and pl is t.get("dest") and not pl["proj"]:
+                    return
+                used.add(pl["l"])
+                for e in pl["proj"]:
+                    if isinstance(e, dict) and "idx" in e:
+                        used.add(e["idx"])
+            _walk_places(t, note_t)
+        dead = []
+        for bi, b in enumerate(blocks):
+            if b.get("cleanup"):
+                continue
+            for si, s in enumerate(b["stmts"]):
+                if s["k"] == "assign" and not s["place"]["proj"] and s["place"]["l"] not in used and s["place"]["l"] != 0 and \
+                        s["place"]["l"] > d.get("arg_count", 0) and any(k in s["rv"] for k in ("use", "ref", "agg")) and \
+                        d["locals"][s["place"]["l"]].get("name") is None:
+                    dead.append((bi, si))
+        if not dead:
+            break
+        if nd is None:
+            nd = dict(d)
+            nd["blocks"] = copy.deepcopy(d["blocks"])
+        for (bi, si) in sorted(dead, reverse=True):
+            del nd["blocks"][bi]["stmts"][si]
+    return nd
+
+
 def normalise(F):
     changed = {}
     for p, f in list(F.fns.items()):
+        nd0 = forward_env(f) if f.d.get("inlined") or f.d.get("desugared") else None
+        if nd0 is not None:
+            f = type(f)(nd0, F)
+            F.fns[p] = f
+            changed[p] = ["env:%d" % e for e in nd0["forwarded_envs"]]
+            for _ in range(3):
+                nd1 = propagate_ref_copies(f)
+                if nd1 is None:
+                    break
+                f = type(f)(nd1, F)
+                F.fns[p] = f
+            nd2 = drop_dead_defs(f)
+            if nd2 is not None:
+                f = type(f)(nd2, F)
+                F.fns[p] = f
+        nd0 = None
+        if nd0 is not None:
+            f = type(f)(nd0, F)
+            F.fns[p] = f
+            changed[p] = ["env:%d" % e for e in nd0["forwarded_envs"]]
         for _ in range(4):
             nd = forward(f)
             if nd is None:
                 break
             f = type(f)(nd, F)
             F.fns[p] = f
-            changed[p] = changed.get(p, []) + nd["forwarded_refs"]
+            changed[p] = changed.get(p, []) + [str(x) for x in nd["forwarded_refs"]]
     return changed
